@@ -504,6 +504,51 @@ class StepCounter:
         logging.getLogger(sm.__name__).addHandler(H(level=logging.INFO))
 
 
+class AbortTracer:
+    """Records the restart decision of every _abort_flow call made for a flow that fails BY ITSELF
+    (abort statement / runtime error while advancing, failed or erroneous match, failed creation of
+    an action event), together with the facts the model's `fail_inst` decides on.  Whether the flow
+    had been STARTED is tracked independently of the interpreter's own bookkeeping by observing the
+    FlowState.status setter."""
+
+    SITES = ("_advance_head_front", "run_to_completion", "_generate_action_event_from_actionable_element")
+
+    def __init__(self, sm):
+        from nemoguardrails.colang.v2_x.runtime.flows import FlowState, FlowStatus
+
+        self.records = []
+        self.ever_started = set()
+        tracer = self
+        prop = FlowState.status
+        fget, fset = prop.fget, prop.fset
+
+        def setter(fs, status):
+            if status == FlowStatus.STARTED:
+                tracer.ever_started.add(fs.uid)
+            fset(fs, status)
+
+        FlowState.status = property(fget, setter)
+        orig = sm._abort_flow
+
+        def traced(state, flow_state, matching_scores, deactivate_flow=False, *a, **kw):
+            site = sys._getframe(1).f_code.co_name
+            aborts = sm.is_listening_flow(flow_state) or flow_state.status == FlowStatus.STOPPING
+            pre = (flow_state.activated > 0, bool(flow_state.new_instance_started), bool(deactivate_flow),
+                   flow_state.uid in tracer.ever_started)
+            r = orig(state, flow_state, matching_scores, deactivate_flow, *a, **kw)
+            if site in AbortTracer.SITES and aborts and flow_state.flow_id != "main":
+                restarted = bool(flow_state.new_instance_started) and not pre[1]
+                tracer.records.append({"site": site, "flow": flow_state.flow_id, "act": pre[0], "nis": pre[1],
+                                       "deact": pre[2], "started": pre[3], "restarted": restarted})
+            return r
+
+        sm._abort_flow = traced
+
+    def take(self):
+        r, self.records = self.records, []
+        return r
+
+
 def budget_formula(total_elems, n_flows, live):
     """Step budget for ONE run_to_completion: depends only on the program size (number of
     primitive elements, number of flows) and on the number of live flow instances."""
@@ -545,7 +590,7 @@ def run_case_direct(sm, tracer, counter, case):
     for k, ev in enumerate(evs):
         new_event = ev
         rounds = 0
-        rec = {"steps": 0, "live": _live(state, sm), "status": "ok", "escaped": []}
+        rec = {"steps": 0, "live": _live(state, sm), "status": "ok", "escaped": [], "out": []}
         while new_event is not None:
             rounds += 1
             if rounds > 5:
@@ -565,8 +610,11 @@ def run_case_direct(sm, tracer, counter, case):
                 rec["escaped"].append(type(e).__name__ + ":" + str(e)[:120])
                 new_event = sm.Event(name="ColangError", arguments={"type": str(type(e).__name__), "error": str(e)})
             rec["steps"] = max(rec["steps"], counter.n)
+            rec["out"] += [e["type"] for e in state.outgoing_events if isinstance(e, dict)]
         res["events"].append(rec)
         res["slides"] += [slide_case_from_record(r, tbl) for r in tracer.take()]
+        res.setdefault("aborts", [])
+        res["aborts"] += tracer.aborts.take()
         if rec["status"] != "ok":
             break
     res["markers"] = {k: v for k, v in state.context.items() if k.startswith("m_") and isinstance(v, (bool, int, str, type(None)))}
@@ -623,6 +671,7 @@ def run_case_pe(sm, tracer, counter, case):
 
     state = asyncio.run(go())
     tracer.take()
+    res["aborts"] = tracer.aborts.take()
     if state is not None:
         res["markers"] = {k: v for k, v in state.context.items() if k.startswith("m_") and isinstance(v, (bool, int, str, type(None)))}
         fl = {}
@@ -702,6 +751,7 @@ def worker_main(jobfile, outfile):
     sm = _worker_setup()
     tracer = SlideTracer(sm)
     counter = StepCounter(sm)
+    tracer.aborts = AbortTracer(sm)
     import threading
 
     cases = json.load(open(jobfile))
@@ -866,27 +916,52 @@ class ProgGen:
         return "\n\n".join(flows) + "\n"
 
     def special_activated(self, i):
-        """The shapes named in the property: an activated flow that aborts / raises / finishes at once."""
+        """The shapes named in the property: an activated flow that aborts / raises / finishes before it
+        waits.  Family: <prefix of statements that do not wait> ; <failure> ; [match ; ...] where the
+        prefix may contain actions and child starts (so that the failing advance is not the first
+        one and the flow status is STARTING), the failure is an abort, an erroneous expression, an
+        action whose event cannot be created, an immediate end or a failing child, and the failure
+        happens on every start or - through a global flag - only from the second start on (then
+        the activating parent is not affected)."""
         rng = self.rng
-        kind = rng.choice(["abort", "raise", "finish", "child-abort", "child-raise", "cond-abort", "wait-abort",
-                           "wait-raise", "loser"])
-        self.features.add("activated:" + kind)
         later = [j for j in range(i + 1, self.k)]
-        if kind == "abort":
-            return ["abort"]
-        if kind == "raise":
-            return [rng.choice(['$x = 1 + "a"', '$x = $undefined + 1', '$x = regex("(")', "$x = $u.foo.bar"])]
-        if kind == "finish":
-            return [rng.choice(["$x = 1", 'log "x"', "return 3"])]
-        if kind in ("child-abort", "child-raise") and later:
-            return [f"start f{rng.choice(later)}", "match E0()"]
-        if kind == "cond-abort":
-            return ["global $g", "if $g == 1", "  abort", f"match {rng.choice(EVENTS)}()", "$g = 1"]
-        if kind == "wait-abort":
-            return [f"match {rng.choice(EVENTS)}()", "abort"]
-        if kind == "wait-raise":
-            return [f"match {rng.choice(EVENTS)}()", '$x = 1 + "a"']
-        return ["send Out0()", f"match {rng.choice(EVENTS)}()"]
+        prefix = []
+        for _ in range(rng.choice([0, 0, 1, 1, 2, 3])):
+            q = rng.random()
+            if q < 0.3:
+                prefix.append(f"send Out{rng.randrange(2)}()")
+            elif q < 0.55:
+                prefix.append(f'start UtteranceBotAction(script="p{rng.randrange(3)}")')
+            elif q < 0.75 and later:
+                prefix.append(f"start f{rng.choice(later)}")
+            elif q < 0.9:
+                prefix.append(f"$v{rng.randrange(3)} = {rng.randrange(4)}")
+            else:
+                prefix.append('log "p"')
+        kind = rng.choice(["abort", "raise", "illtyped-action", "finish", "child-fails", "loser"])
+        when = rng.choice(["always", "on-restart", "on-restart"])
+        pre = ("first" if not prefix else
+               "after-action" if any("Action" in x or x.startswith("send") for x in prefix) else
+               "after-child-start" if any(x.startswith("start f") for x in prefix) else "after-plain-statements")
+        self.features.add(f"activated:{kind}:{when}")
+        self.features.add(f"activated-prefix:{pre}")
+        fail = {
+            "abort": ["abort"],
+            "raise": [rng.choice(['$x = 1 + "a"', "$x = $undefined + 1", '$x = regex("(")', "$x = $u.foo.bar", "$x = 10 / 0"])],
+            "illtyped-action": [rng.choice(["start UtteranceBotAction(script=3)", "start UtteranceBotAction(script=None)",
+                                            "send StartUtteranceBotAction(script=3)", "await UtteranceBotAction(script=$v0)"])],
+            "finish": [rng.choice(["return", "return 3"])],
+            "child-fails": ([f"start f{rng.choice(later)}"] if later else ["abort"]),
+            "loser": ["send Out0()"],
+        }[kind]
+        ev = rng.choice(EVENTS)
+        if kind in ("child-fails", "loser"):
+            # the failure is the child's / the lost action conflict: nothing to guard
+            return prefix + fail + [f"match {ev}()"] + ([rng.choice(["abort", '$x = 1 + "a"', "$v0 = 1"])] if rng.random() < 0.5 else [])
+        if when == "always":
+            tail = [] if kind == "finish" else [f"match {ev}()"]
+            return prefix + fail + tail
+        return ["global $g"] + prefix + ["if $g == 1"] + ["  " + l for l in fail] + [f"match {ev}()", "$g = 1"]
 
     def flow(self, i):
         rng = self.rng
@@ -932,7 +1007,14 @@ class ProgGen:
                 v = rng.randrange(3)
                 lines.append(rng.choice([f"$v{v} = {rng.randrange(4)}", f"$v{v} = $v{v} + 1", f'$v{v} = "s"', 'log "x"']))
             elif r < 0.44:
-                lines.append(f"send Out{rng.randrange(2)}()")
+                q = rng.random()
+                if q < 0.6:
+                    lines.append(f"send Out{rng.randrange(2)}()")
+                elif q < 0.9:
+                    lines.append(f'start UtteranceBotAction(script="s{rng.randrange(3)}")')
+                else:
+                    lines.append(rng.choice(["start UtteranceBotAction(script=3)", "start UtteranceBotAction(script=$v1)"]))
+                    self.features.add("illtyped-action")
                 self.features.add("action-send")
             elif r < 0.62:
                 j = self.call_target(waited)
@@ -1064,9 +1146,21 @@ STMTS = [
     ("start-arg", "slide", ["start child ({X})"]),
     ("internal-send", "slide", ["send FinishFlow(flow_id={X})"]),
 ]
+# actions whose arguments evaluate but whose outgoing event cannot be created (validation of the
+# UMIM event): the error surfaces when the actionable head is turned into an event
+ILLTYPED = {"illtyped-int": "3", "illtyped-none": "None", "illtyped-var": "$f"}
+ACTION_STMTS = [
+    ("action-start-illtyped", "action-event", ["start UtteranceBotAction(script={X})"]),
+    ("action-send-illtyped", "action-event", ["send StartUtteranceBotAction(script={X})"]),
+    ("action-await-illtyped", "action-event", ["await UtteranceBotAction(script={X})"]),
+]
 MATCH_STMTS = [
     ("match-param", "match-param", "match {EV}(p={X})"),
     ("match-group", "match-param", "match {EV}(p={X}) or Never3()"),
+    ("match-or-same-event", "match-param", "match {EV}(p={X}) or {EV}(q=1)"),
+    ("match-or-same-event-2nd", "match-param", "match {EV}(q=1) or {EV}(p={X})"),
+    ("match-and-same-event", "match-param", "match {EV}(p={X}) and {EV}(q=1)"),
+    ("when-same-event", "match-param", "when {EV}(p={X})\n  $a = 1\nor when {EV}(q=1)\n  $a = 2"),
     ("when-param", "match-param", "when {EV}(p={X})\n  $a = 1"),
     ("match-cmp", "match-param", "match {EV}(p=less_than(3))"),          # event carries p="abc"
     ("match-bad-ref", "match-reference", "match {EV}()\nmatch $nope.Finished()"),
@@ -1084,10 +1178,14 @@ def inject_program(stmt_lines, seg, start_mode, in_child, faulty_first):
     return lines
 
 
-def build_inject_src(body_lines, start_mode, in_child, faulty_first):
+def build_inject_src(body_lines, start_mode, in_child, faulty_first, with_waiter=False):
     ind = lambda ls: "\n".join("  " + l for l in ls)
     flows = []
     flows.append("flow child $p\n  match NeverC()")
+    if with_waiter:
+        # a running child of the faulty flow that waits for the same event names with another head
+        flows.append("flow waiter\n  match X(q=1) or Y(q=1) or W(q=1)\n  match Never6()")
+        body_lines = ["start waiter"] + list(body_lines)
     if in_child:
         flows.append("flow inner\n" + ind(body_lines))
         flows.append("flow faulty\n  $q = 1\n  await inner")
@@ -1099,9 +1197,12 @@ def build_inject_src(body_lines, start_mode, in_child, faulty_first):
         flows.append(f"flow {name}\n  global $m_{name}_go\n  global $m_{name}_x\n  global $m_{name}_y\n  global $m_{name}_w\n  global $m_{name}_z\n"
                      f"  match Go()\n  $m_{name}_go = True\n  match X()\n  $m_{name}_x = True\n  match Y()\n  $m_{name}_y = True\n"
                      f"  match W()\n  $m_{name}_w = True\n  match Z()\n  $m_{name}_z = True")
+    # a bystander in its own interaction loop that ACTS in the same processing cycle
+    flows.append('@loop("b3")\nflow other3\n  match Go()\n  send B3Go()\n  match X()\n  send B3X()\n  match Y()\n  send B3Y()\n'
+                 "  match W()\n  send B3W()\n  match Z()\n  send B3Z()")
     flows.append("flow sup\n  global $m_sup\n  match ColangError()\n  $m_sup = True")
-    main = ["start other"] + (["start launcher"] if faulty_first else []) + ["start sup"] + \
-           ([] if faulty_first else ["start launcher"]) + ["start other2", "match Never()"]
+    main = ["start other"] + (["start launcher"] if faulty_first else ["start other3"]) + ["start sup"] + \
+           (["start other3"] if faulty_first else ["start launcher"]) + ["start other2", "match Never()"]
     flows.append("flow main\n" + ind(main))
     return "\n\n".join(flows) + "\n"
 
@@ -1111,50 +1212,82 @@ def gen_inject_cases(rng, limit, hist):
     for start_mode in ("start", "await", "activate"):
         for in_child in (False, True):
             for faulty_first in (True, False):
-                for seg in (0, 1, 2):
-                    for name, site, tmpl in STMTS:
-                        for bk, bx in BAD.items():
-                            lines = []
-                            for t in tmpl:
-                                lines.append(t.replace("{X}", bx))
-                            body = inject_program(lines, seg, start_mode, in_child, faulty_first)
-                            all_cases.append((name, site, bk, seg, start_mode, in_child, faulty_first, body, "X"))
-                    for name, site, tmpl in MATCH_STMTS:
-                        kinds = ["cmp"] if name == "match-cmp" else (["ref"] if site == "match-reference" else list(BAD))
-                        for bk in kinds:
-                            ev = {0: "X", 1: "Y", 2: "W"}[seg]
-                            txt = tmpl.replace("{EV}", ev).replace("{X}", BAD.get(bk, ""))
-                            mlines = txt.split("\n")
-                            filler = ["$f = 1", 'log "f"']
-                            # the erroneous match REPLACES the wait of its segment
-                            if seg == 0:
-                                body = [filler[0]] + mlines + [filler[1], "match Y()", "match Never4()"]
-                            elif seg == 1:
-                                body = [filler[0], "match X()", filler[1]] + mlines + ["match Never4()"]
-                            else:
-                                body = [filler[0], "match X()", "match Y()", filler[1]] + mlines + ["match Never4()"]
-                            all_cases.append((name, site, bk, seg, start_mode, in_child, faulty_first, body, ev))
+                for with_waiter in (False, True):
+                    for seg in (0, 1, 2):
+                        ctx = (seg, start_mode, in_child, faulty_first, with_waiter)
+                        for name, site, tmpl in STMTS + ACTION_STMTS:
+                            for bk, bx in (ILLTYPED if site == "action-event" else BAD).items():
+                                lines = [t.replace("{X}", bx) for t in tmpl]
+                                body = inject_program(lines, seg, start_mode, in_child, faulty_first)
+                                all_cases.append((name, site, bk) + ctx + (body,))
+                        for name, site, tmpl in MATCH_STMTS:
+                            kinds = ["cmp"] if name == "match-cmp" else (["ref"] if site == "match-reference" else list(BAD))
+                            for bk in kinds:
+                                ev = {0: "X", 1: "Y", 2: "W"}[seg]
+                                txt = tmpl.replace("{EV}", ev).replace("{X}", BAD.get(bk, ""))
+                                mlines = txt.split("\n")
+                                filler = ["$f = 1", 'log "f"']
+                                # the erroneous match REPLACES the wait of its segment
+                                if seg == 0:
+                                    body = [filler[0]] + mlines + [filler[1], "match Y()", "match Never4()"]
+                                elif seg == 1:
+                                    body = [filler[0], "match X()", filler[1]] + mlines + ["match Never4()"]
+                                else:
+                                    body = [filler[0], "match X()", "match Y()", filler[1]] + mlines + ["match Never4()"]
+                                all_cases.append((name, site, bk) + ctx + (body,))
     rng.shuffle(all_cases)
-    # stratify: every (statement, bad kind, site) at least once, then fill up
+    # stratify: every (statement, bad kind, start mode) and every (statement, waiter, in_child) at least once
     seen = set()
     chosen, rest = [], []
     for c in all_cases:
-        key = (c[0], c[2], c[4])
-        if key not in seen:
-            seen.add(key)
+        keys = [(c[0], c[2], c[4]), (c[0], c[7], c[5], c[6])]
+        if any(k not in seen for k in keys):
+            seen.update(keys)
             chosen.append(c)
         else:
             rest.append(c)
     chosen = (chosen + rest)[:limit] if limit else chosen + rest
     cases = []
-    for n, (name, site, bk, seg, start_mode, in_child, faulty_first, body, ev) in enumerate(chosen):
-        src = build_inject_src(body, start_mode, in_child, faulty_first)
+    for n, (name, site, bk, seg, start_mode, in_child, faulty_first, with_waiter, body) in enumerate(chosen):
+        src = build_inject_src(body, start_mode, in_child, faulty_first, with_waiter)
         events = ["Go", {"type": "X", "p": "abc"}, {"type": "Y", "p": "abc"}, {"type": "W", "p": "abc"}, "Z", "Q"]
         cases.append({"id": f"inj{n}", "kind": "inject", "src": src, "events": events,
                       "meta": {"stmt": name, "site": site, "bad": bk, "segment": seg, "start": start_mode,
-                               "in_child": in_child, "faulty_first": faulty_first}})
+                               "in_child": in_child, "faulty_first": faulty_first, "waiter": with_waiter}})
         hist[name] = hist.get(name, 0) + 1
     return cases, len(all_cases)
+
+
+def scenario_verdict(case, r):
+    """Corpus kind "scenario": a program, events and the expected observable reactions
+    (expect.out[k] = event types that must be among the outputs of event k (0 = start of main),
+    expect.stopped / expect.alive = flows that must / must not have failed)."""
+    if r.get("hang"):
+        return [("hang", "interpreter did not return")]
+    if r.get("crash"):
+        return [("interpreter-crash", r.get("stderr", "")[-200:])]
+    if r.get("error"):
+        return [("harness-error", r["error"])]
+    bad = []
+    for k, e in enumerate(r["events"]):
+        if e["status"] == "budget":
+            return [("event-processing-does-not-terminate", f"event #{k}: step budget {e.get('budget')} exceeded")]
+        if e["status"] != "ok":
+            return [("exception-escapes-process_events", e["status"])]
+    exp = case.get("expect", {})
+    for k, want in enumerate(exp.get("out", [])):
+        got = r["events"][k].get("out", []) if k < len(r["events"]) else []
+        for t in want:
+            if t not in got:
+                bad.append(("expected-reaction-missing", f"event #{k}: `{t}` not among the outputs {got}"))
+    fl = r.get("flows", {})
+    for name in exp.get("stopped", []):
+        if "STOPPED" not in fl.get(name, []):
+            bad.append(("faulty-flow-did-not-fail", f"flow `{name}` statuses {fl.get(name)}"))
+    for name in exp.get("alive", []):
+        if "STOPPED" in fl.get(name, []):
+            bad.append(("unrelated-flow-failed", f"flow `{name}` is STOPPED"))
+    return bad
 
 
 def inject_verdict(case, r):
@@ -1182,7 +1315,7 @@ def inject_verdict(case, r):
         bad.append(("no-ColangError-event", "supervisor flow `match ColangError()` never advanced"))
     seg = case["meta"]["segment"]
     # the event during whose processing the error surfaces
-    if case["meta"]["site"] == "slide":
+    if case["meta"]["site"] in ("slide", "action-event"):
         same = ["go", "x", "y"][seg]
     else:
         same = ["x", "y", "w"][seg]
@@ -1193,7 +1326,14 @@ def inject_verdict(case, r):
                 what = "bystander-misses-same-event" if ev == same else "bystander-misses-later-event"
                 bad.append((what, f"flow `{name}` did not react to event {ev.upper()}"))
                 break
-    for name in ("other", "other2", "sup", "main"):
+    # the bystander of the other interaction loop must have ACTED on every event
+    for k, ev in enumerate(order):
+        outs = r["events"][k + 1].get("out", []) if k + 1 < len(r["events"]) else []
+        if "B3" + ev.capitalize() not in outs and "B3" + ev.upper() not in outs:
+            what = "acting-bystander-misses-same-event" if ev == same else "acting-bystander-misses-later-event"
+            bad.append((what, f"flow `other3` (own interaction loop) did not send its reaction to event {ev.upper()}"))
+            break
+    for name in ("other", "other2", "other3", "sup", "main"):
         if "STOPPED" in fl.get(name, []):
             bad.append(("unrelated-flow-failed", f"flow `{name}` is STOPPED"))
     target = "inner" if case["meta"]["in_child"] else "faulty"
@@ -1355,9 +1495,17 @@ def run(tier, seed, replay=None):
                 w, p0 = what, payload
             findings[sig] = (w, p0, n + 1)
 
+    restart_obs = {}
     for c in cases:
         r = results.get(c["id"], {"error": "missing"})
         kind = c.get("kind", "term")
+        for ab in r.get("aborts", []):
+            key = (ab["act"], ab["nis"], ab["deact"], ab["started"], ab["restarted"])
+            ent = restart_obs.setdefault(key, {"n": 0, "sites": {}, "case": None})
+            ent["n"] += 1
+            ent["sites"][ab["site"]] = ent["sites"].get(ab["site"], 0) + 1
+            if ent["case"] is None or len(c.get("src", "")) < len(ent["case"][0].get("src", "")):
+                ent["case"] = (c, ab)
         for sc in r.get("slides", []):
             slide_cases.append((c["id"], sc, r["program"][sc["flow"]]["elems"]))
         for fid, v in r.get("program", {}).items():
@@ -1394,6 +1542,14 @@ def run(tier, seed, replay=None):
                 add_finding(sig, f"run_to_completion does not terminate ({bad}); premise holds: every loop/recursion contains a waiting statement",
                             {"kind": "term", "src": c["src"], "events": c["events"], "observed": bad,
                              "instances_per_flow": {k: len(v) for k, v in r.get("flows", {}).items()}})
+        elif kind == "scenario":
+            for what, det in scenario_verdict(c, r):
+                if what == "harness-error":
+                    out.add_broken("harness:scenario-case", f"{c['id']}: {det}")
+                    continue
+                add_finding(f"scenario:{c.get('name', c['id'])}:{what}", f"{c.get('note', '')} {det}",
+                            {"kind": "scenario", "src": c["src"], "events": c["events"], "expect": c.get("expect", {}),
+                             "name": c.get("name", c["id"]), "observed": det})
         else:
             verdicts = inject_verdict(c, r)
             for what, det in verdicts:
@@ -1405,6 +1561,33 @@ def run(tier, seed, replay=None):
                 add_finding(sig, f"error injected as `{c['meta']['stmt']}` ({c['meta']['bad']}), driver={c.get('mode', 'direct')}: {det}",
                             {"kind": "inject", "src": c["src"], "events": c["events"], "meta": c["meta"], "mode": c.get("mode", "direct"),
                              "observed": det})
+    # ---- correspondence 4: the restart decision of every real _abort_flow call for a flow that fails by
+    # itself equals the model's fail_inst under the repaired guard (restart iff activated, not yet
+    # restarted, not deactivated and the flow HAD BEEN STARTED)
+    restart_stats = {"abort_calls": sum(v["n"] for v in restart_obs.values()), "distinct": len(restart_obs),
+                     "activated_not_started": sum(v["n"] for k, v in restart_obs.items() if k[0] and not k[3]),
+                     "activated_started": sum(v["n"] for k, v in restart_obs.items() if k[0] and k[3])}
+    if okm and restart_obs:
+        keys = sorted(restart_obs)
+        r_terms = ["(" + ", ".join(C.coq_bool(x) for x in k) + ")" for k in keys]
+        bools, err = C.run_cases(PID + "_restart", PREAMBLE, r_terms, "check_restart")
+        if err:
+            out.add_broken("correspondence:C10-restart(coqc)", err)
+        else:
+            for ok, k in zip(bools, keys):
+                if ok:
+                    continue
+                c, ab = restart_obs[k]["case"]
+                how = ("restarted-although-it-never-started" if (k[4] and not k[3]) else
+                       "restarted-against-the-model" if k[4] else "not-restarted-although-the-model-restarts")
+                out.add_broken("correspondence:C10-restart", f"(activated, new_instance_started, deactivate, had been STARTED, restarted) = {k} "
+                                                           f"x{restart_obs[k]['n']} at {restart_obs[k]['sites']}")
+                add_finding(f"activated-flow-{how}:{ab['site']}",
+                            f"_abort_flow called from {ab['site']} for flow `{ab['flow']}` (activated={k[0]}, had been STARTED={k[3]}): "
+                            f"restart StartFlow queued = {k[4]}, the model of the repaired restart logic says {not k[4]} "
+                            f"[{restart_obs[k]['n']} calls]",
+                            {"kind": c.get("kind", "term"), "src": c.get("src"), "events": c.get("events"), "meta": c.get("meta"),
+                             "mode": c.get("mode", "direct"), "expect": c.get("expect"), "abort_call": ab})
     for sig, (what, payload, n) in findings.items():
         out.findings.append(C.Finding(sig, f"{what} [{n} cases]", payload))
 
@@ -1527,7 +1710,7 @@ def run(tier, seed, replay=None):
             "shipped_dirs": len(dirs), "shipped_flows": len(shipped), "shipped_flows_distinct": len({json.dumps(f['elems']) for f in shipped if 'elems' in f}),
             "shipped_skipped": len(ship_skipped), "shipped_skipped_reasons": sorted({s[1].split(':')[0] for s in ship_skipped}),
             "shipped_unguarded_flows": shipped_unguarded[:20], "flows_checked_by_guardedb": len(g_terms), "unguarded_flows": len(unguarded),
-            "cascade_bound": bound_stats,
+            "cascade_bound": bound_stats, "restart_decisions": restart_stats,
         },
         "traces_validated_against_impl": len(slide_terms),
         "correspondence_disagreements": len(slide_bad) + len(g_bad),
